@@ -5,13 +5,16 @@ LEVEL = 'proof'
 C = 'crates/aranya-runtime/src/command.rs'
 B = 'crates/aranya-runtime/src/client/braiding.rs'
 RT = dict(crate='aranya-runtime', features='testing,libc')
-HARNESS_FILES = ['kani/aranya-runtime/command.rs', 'kani/aranya-runtime/strand_heap.rs']
+HARNESS_FILES = ['kani/aranya-runtime/command.rs', 'kani/aranya-runtime/strand_heap.rs', 'kani/aranya-runtime/convergence_map.rs']
 UNITS = [
     Kani('command::verif_kani::c03_priority_order_is_rank_order', fns=[], contract='derive(Ord) on Priority = Merge < Basic(n) by n < Finalize < Init, all pairs (complete)', **RT),
     Kani('client::braiding::strand_heap::verif_kani::c03_strand_order_is_reversed_priority_then_id', fns=[Fn(B, 'cmp', r'impl<S> Ord for Strand<S>', mod=r'pub\(crate\) mod strand_heap')],
          contract='Strand::cmp = reversed lexicographic (priority rank, id bytes); eq <=> cmp = Equal; tie-break is the command id; a Finalize strand never pops before a concurrent Basic/Merge strand', **RT),
     Kani('command::verif_kani::c03_command_max_cut_contract', fns=[Fn(C, 'max_cut', r'impl<C: Command> CommandExt for C')],
          contract='CommandExt::max_cut: None -> 0, Single(p) -> p+1, Merge(l,r) -> max(l,r)+1 for all u64 (overflow case is a Bug, excluded); address() = (id, max_cut)', **RT),
+    Kani('client::convergence_map::verif_kani::c02_block_codec_roundtrip_n2', fns=[Fn('crates/aranya-runtime/src/client/convergence_map.rs', 'insert', r'impl Block')], kind='bounded', bound='block of 2 entries',
+         contract='spill independence (mechanism): a convergence block reloaded from the spill file holds the same entries and max-cut bounds that cover every entry, '
+                  'so lookups of spilled convergence points use a correct range', **RT),
 ]
 TRUSTED = ['ids vary in their first and last byte in the order harness (the comparison is a 32-byte memcmp)']
 ASSUMPTIONS = ['equality of the braided fact state with the reference braid over all DAGs (LCA correctness, segment-layout independence) is history-level and is NOT decided',
